@@ -11,10 +11,14 @@ TraceNext ==
   /\ ti <= Len(T) /\ ti' = ti + 1
   /\ LET ev == T[ti] IN
      /\ ev.e = "Iter"
-     /\ now' = 0 /\ iters' = 0                     \* each event is judged on its own, relative to its t0
+     /\ now' = 0 /\ iters' = 0 /\ wokenAt' = -1   \* each event is judged on its own, relative to its t0
      /\ ret' = ev.d /\ t1' = ev.w
      /\ slept' = (LET a == SleepArg(ev.d - ev.w) IN IF a > 0 THEN a ELSE 0)
-     /\ (Exact => (ev.slept = slept' /\ ev.calls = (IF slept' > 0 THEN 1 ELSE 0)))      \* what the loop asked to sleep, and in how many calls
+     /\ IF ev.intr < 0
+          THEN (Exact => (ev.slept = slept' /\ ev.calls = (IF slept' > 0 THEN 1 ELSE 0)))   \* what the loop asked to sleep, and in how many calls
+          ELSE \* IterSignal: the first sleep was cut short after ev.intr ticks by a signal whose handler posted a wake-up
+               /\ (Exact => ev.asked = slept')
+               /\ ev.after = 0                    \* WakeNotSleptOn: nothing is slept between the wake-up and the next pass
      /\ ev.w + ev.slept <= (IF ev.d > ev.w THEN ev.d ELSE ev.w)            \* NoOversleep on the observed numbers
 TraceSpec == TraceInit /\ [][TraceNext]_<<vars, ti>>
 TraceAccepted ==
